@@ -239,4 +239,132 @@ example :
     (runPubs (Deployment.init ls) [(1, [c])]).handshake 0 "a.test".toList = some .errNoCerts := by
   decide
 
+/-! ## 5. The watcher of a source in front of the deployment -/
+
+/-- A watcher whose every load is unusable (loader error or material `loadCertificates` rejects) publishes nothing. -/
+theorem bad_script_publishes_nothing {M : Type} [DecidableEq M] (b : Bool) (mk : M → Option CertSet) (refresh : Int)
+    (st : St M) (script : List (LoadResult M)) (hbad : ∀ r ∈ script, badLoad mk r = true) :
+    publications (trace b mk refresh st script) = [] := by
+  apply List.eq_nil_iff_forall_not_mem.mpr
+  intro s hs
+  obtain ⟨m, hm, e⟩ := published_sets_are_usable b mk refresh st script s hs
+  have := hbad _ hm
+  simp [badLoad, e] at this
+
+/-- **A source that delivers unusable material removes no listener's working set**: whatever the deployment has
+been through (`pubs`), when the watcher of source `j` then goes through any history of failing loads, every
+handshake on every listener — those of source `j` included, strict or not — is answered exactly as before. -/
+theorem deployment_keeps_working_set {M : Type} [DecidableEq M] (ls : List ListenerCfg) (pubs : List (Nat × CertSet))
+    (j : Nat) (mk : M → Option CertSet) (refresh : Int) (st : St M) (script : List (LoadResult M))
+    (hbad : ∀ r ∈ script, badLoad mk r = true) (i : Nat) (server : Name) :
+    (runPubs (Deployment.init ls)
+        (pubs ++ (publications (trace true mk refresh st script)).map fun s => (j, s))).handshake i server
+      = (runPubs (Deployment.init ls) pubs).handshake i server := by
+  rw [bad_script_publishes_nothing true mk refresh st script hbad]
+  simp
+
+/-- … and the first usable, different material after such a history is published to all listeners of the source:
+each of them answers from the new set with its own strictness. -/
+theorem deployment_new_set_effective {M : Type} [DecidableEq M] (ls : List ListenerCfg) (pubs : List (Nat × CertSet))
+    (j : Nat) (mk : M → Option CertSet) (refresh : Int) (st : St M) (bad : List (LoadResult M))
+    (hbad : ∀ r ∈ bad, badLoad mk r = true) (m : M) (cs : CertSet) (hm : mk m = some cs) (hne : m ≠ st.last)
+    (i : Nat) (l : ListenerCfg) (hl : ls[i]? = some l) (hj : l.src = j) (server : Name) :
+    (step true mk refresh (runSt true mk refresh st bad) (.blocks m)).2 = [.publish m cs] ∧
+    (runPubs (Deployment.init ls) (pubs ++ [(j, cs)])).handshake i server
+      = some (specAnswer cs server (parseStrict l.strict)) := by
+  refine ⟨by rw [good_material_after_bad_is_published true mk refresh st bad m cs hbad hm hne], ?_⟩
+  rw [publication_reaches_the_listeners_of_its_source ls pubs j cs i l hl server, if_pos hj, getCertificate_eq_spec]
+
+-- non-vacuity: a script of failing loads (an error, then material without key) in front of a deployment
+example :
+    let mk : Nat → Option CertSet := fun m => if m = 7 then none else some [⟨m, ["x.test".toList]⟩]
+    let script : List (LoadResult Nat) := [.err, .blocks 7, .err]
+    (∀ r ∈ script, badLoad mk r = true) ∧
+    publications (trace true mk 0 ⟨0, false⟩ script) = [] ∧
+    publications (trace true mk 0 ⟨0, false⟩ (script ++ [.blocks 3])) = [[⟨3, ["x.test".toList]⟩]] := by
+  decide
+
+/-! ## 6. `base`: where the files of an HTTP source's list are fetched from -/
+
+/-- `path.Clean` leaves a sequence of ordinary path elements alone. -/
+theorem cleanSegs_plain (acc ss : List Name)
+    (h : ∀ s ∈ ss, s ≠ [] ∧ s ≠ ['.'] ∧ s ≠ ['.', '.']) : cleanSegs acc ss = acc.reverse ++ ss := by
+  induction ss generalizing acc with
+  | nil => simp [cleanSegs]
+  | cons s ss ih =>
+    obtain ⟨h1, h2, h3⟩ := h s (by simp)
+    have e1 : s.isEmpty = false := by cases s <;> simp_all
+    have e2 : (s == ['.']) = false := by simpa using h2
+    have e3 : (s == ['.', '.']) = false := by simpa using h3
+    unfold cleanSegs
+    simp only [e1, e2, e3, Bool.or_self, Bool.false_eq_true, if_false]
+    rw [ih (s :: acc) (fun t ht => h t (List.mem_cons_of_mem _ ht))]
+    simp
+
+/-- **A list in a directory**: for a list at `origin/d₁/…/dₙ/file` (n ≥ 1, ordinary directory names) the files are
+fetched from `origin/d₁/…/dₙ` — *without* a trailing slash, so the names in the list must start with `/`. -/
+theorem base_of_list_in_directory (origin path : Name) (dirs : List Name) (file : Name)
+    (hsplit : splitOn '/' path = [] :: dirs ++ [file]) (hne : dirs ≠ [])
+    (hd : ∀ s ∈ dirs, s ≠ [] ∧ s ≠ ['.'] ∧ s ≠ ['.', '.']) :
+    baseOf origin path = origin ++ '/' :: joinSlash dirs := by
+  have hp1 : (path == ['/']) = false := by
+    cases hb : path == ['/'] with
+    | false => rfl
+    | true =>
+      have : path = ['/'] := by simpa using hb
+      subst this
+      have : dirs = [] := by
+        have hl := congrArg List.length hsplit
+        simp [splitOn] at hl
+        cases dirs with
+        | nil => rfl
+        | cons d ds => simp at hl
+      exact absurd this hne
+  have hp2 : path.isEmpty = false := by
+    cases path with
+    | nil =>
+      have hl := congrArg List.length hsplit
+      simp [splitOn] at hl
+    | cons c cs => rfl
+  unfold baseOf pathDir
+  simp only [hp1, hp2, Bool.false_eq_true, if_false]
+  have hdl : (splitOn '/' path).dropLast = [] :: dirs := by
+    rw [hsplit]; exact List.dropLast_concat
+  rw [hdl]
+  have : cleanSegs [] ([] :: dirs) = dirs := by
+    unfold cleanSegs
+    simp only [List.isEmpty_nil, Bool.true_or, if_true]
+    simpa using cleanSegs_plain [] dirs hd
+  rw [this]
+
+/-- **A list at the server's root** (`origin/file`): the files are fetched from `origin/` (names without a slash). -/
+theorem base_of_list_at_root (origin path : Name) (file : Name) (hsplit : splitOn '/' path = [[], file])
+    (hf : file ≠ []) : baseOf origin path = origin ++ ['/'] := by
+  have hp1 : (path == ['/']) = false := by
+    cases hb : path == ['/'] with
+    | false => rfl
+    | true =>
+      have : path = ['/'] := by simpa using hb
+      subst this
+      simp [splitOn] at hsplit
+      exact absurd hsplit hf
+  have hp2 : path.isEmpty = false := by
+    cases path with
+    | nil => simp [splitOn] at hsplit
+    | cons c cs => rfl
+  unfold baseOf pathDir
+  simp only [hp1, hp2, Bool.false_eq_true, if_false, hsplit]
+  simp [cleanSegs, joinSlash]
+
+-- non-vacuity, and the two corner cases of the code: a URL without path, and elements `path.Clean` removes
+example :
+    baseOf "http://h:80".toList "/certs/tls/list.txt".toList = "http://h:80/certs/tls".toList ∧
+    splitOn '/' "/certs/tls/list.txt".toList = [] :: ["certs".toList, "tls".toList] ++ ["list.txt".toList] ∧
+    baseOf "http://h:80".toList "/list".toList = "http://h:80/".toList ∧
+    baseOf "http://h:80".toList "/".toList = "http://h:80/".toList ∧
+    baseOf "http://h:80".toList [] = "http://h:80/.".toList ∧
+    baseOf "http://h:80".toList "/a/../list".toList = "http://h:80/".toList ∧
+    baseOf "http://h:80".toList "/a//b/./list".toList = "http://h:80/a/b".toList := by
+  decide
+
 end Fabio.Props.C11Deploy
